@@ -1,0 +1,524 @@
+//! Verification hooks. Only compiled with `--cfg wilfred_garden_verif`.
+//!
+//! `garden verif-hook` reads one JSON request per line on stdin and
+//! writes one JSON reply per line on stdout. Every op is a thin
+//! wrapper that calls existing functions and serialises the result.
+
+use std::cell::RefCell;
+use std::io::{BufRead, Write};
+use std::path::PathBuf;
+use std::rc::Rc;
+use std::sync::atomic::{AtomicU64, Ordering};
+
+use serde_json::{json, Value as J};
+
+use crate::checks::check_toplevel_items_in_env;
+use crate::env::Env;
+use crate::eval::load_toplevel_items;
+use crate::garden_type::{is_subtype, Type, TypeDefKind};
+use crate::parser::ast::{
+    Block, Expression, Expression_, IdGenerator, Symbol, ToplevelItem, TypeHint, TypeName,
+    TypeSymbol,
+};
+use crate::parser::lex::lex;
+use crate::parser::position::Position;
+use crate::parser::vfs::Vfs;
+use crate::parser::visitor::Visitor;
+use crate::parser::{parse_toplevel_items, ParseError};
+
+thread_local! {
+    static LAST_PANIC: RefCell<Option<(String, String)>> = const { RefCell::new(None) };
+}
+
+static EVAL_STEPS: AtomicU64 = AtomicU64::new(0);
+
+/// Called once per evaluation step from `eval::eval`. Returns true
+/// when the global step counter reaches one of the values listed in
+/// the environment variable `GDN_VERIF_INTERRUPT_AT` (comma
+/// separated, 1-based).
+pub(crate) fn interrupt_due() -> bool {
+    lazy_static::lazy_static! {
+        static ref POINTS: Vec<u64> = std::env::var("GDN_VERIF_INTERRUPT_AT")
+            .map(|s| s.split(',').filter_map(|p| p.trim().parse().ok()).collect())
+            .unwrap_or_default();
+    }
+    if POINTS.is_empty() {
+        return false;
+    }
+    let n = EVAL_STEPS.fetch_add(1, Ordering::SeqCst) + 1;
+    POINTS.contains(&n)
+}
+
+fn pos_json(p: &Position) -> J {
+    json!({
+        "s": p.start_offset, "e": p.end_offset,
+        "l": p.line_number, "el": p.end_line_number,
+        "c": p.column, "ec": p.end_column,
+    })
+}
+
+fn catch<T>(f: impl FnOnce() -> T) -> Result<T, J> {
+    LAST_PANIC.with(|p| *p.borrow_mut() = None);
+    match std::panic::catch_unwind(std::panic::AssertUnwindSafe(f)) {
+        Ok(v) => Ok(v),
+        Err(_) => {
+            let (msg, loc) = LAST_PANIC
+                .with(|p| p.borrow_mut().take())
+                .unwrap_or_else(|| ("?".to_owned(), "?".to_owned()));
+            Err(json!({"message": msg, "location": loc}))
+        }
+    }
+}
+
+fn hook_path(req: &J) -> PathBuf {
+    PathBuf::from(req["path"].as_str().unwrap_or("/verif_hook/input.gdn"))
+}
+
+fn parse_errors_json(errors: &[ParseError]) -> Vec<J> {
+    errors
+        .iter()
+        .map(|e| {
+            json!({
+                "message": e.message().as_string(),
+                "pos": pos_json(e.position()),
+                "incomplete": matches!(e, ParseError::Incomplete { .. }),
+            })
+        })
+        .collect()
+}
+
+/// Position-free dump of a syntax tree: the derived `Debug` output
+/// (which already elides positions) with the numeric IDs removed and
+/// optional commas normalised.
+fn normalise_debug(s: &str) -> String {
+    lazy_static::lazy_static! {
+        static ref ID_RE: regex::Regex =
+            regex::Regex::new(r"(SyntaxId|ToplevelItemId|InternedSymbolId)\(\d+\)").unwrap();
+        static ref COMMA_RE: regex::Regex =
+            regex::Regex::new(r"comma: (None|Some\(Position \{ \.\.\. \}\))").unwrap();
+    }
+    let s = ID_RE.replace_all(s, "$1(_)");
+    COMMA_RE.replace_all(&s, "comma: _").into_owned()
+}
+
+struct PosCollector {
+    out: Vec<J>,
+}
+
+impl PosCollector {
+    fn push(&mut self, kind: &str, p: &Position) {
+        let mut j = pos_json(p);
+        j["k"] = J::String(kind.to_owned());
+        self.out.push(j);
+    }
+}
+
+impl Visitor for PosCollector {
+    fn visit_toplevel_item(&mut self, item: &ToplevelItem) {
+        self.push("item", &item.position());
+        self.visit_toplevel_item_default(item);
+    }
+    fn visit_expr(&mut self, expr: &Expression) {
+        let kind = match &expr.expr_ {
+            Expression_::StringLiteral(_) => "expr:string",
+            Expression_::BinaryOperator(..) => "expr:binop",
+            Expression_::Call(..) => "expr:call",
+            Expression_::MethodCall(..) => "expr:methodcall",
+            Expression_::Variable(_) => "expr:var",
+            Expression_::Invalid => "expr:invalid",
+            _ => "expr",
+        };
+        self.push(kind, &expr.position);
+        self.visit_expr_(&expr.expr_);
+    }
+    fn visit_block(&mut self, block: &Block) {
+        self.push("open_brace", &block.open_brace);
+        self.push("close_brace", &block.close_brace);
+        for expr in &block.exprs {
+            self.visit_expr(expr);
+        }
+    }
+    fn visit_symbol(&mut self, sym: &Symbol) {
+        self.push("symbol", &sym.position);
+    }
+    fn visit_type_symbol(&mut self, sym: &TypeSymbol) {
+        self.push("type_symbol", &sym.position);
+    }
+    fn visit_type_hint(&mut self, hint: &TypeHint) {
+        self.push("type_hint", &hint.position);
+        self.visit_type_symbol(&hint.sym);
+        for arg in &hint.args {
+            self.visit_type_hint(arg);
+        }
+    }
+}
+
+fn op_ast(req: &J) -> J {
+    let src = req["src"].as_str().unwrap_or("").to_owned();
+    let path = hook_path(req);
+    let want_positions = req["positions"].as_bool().unwrap_or(false);
+
+    let res = catch(|| {
+        let mut id_gen = IdGenerator::default();
+        let (_vfs, vfs_path) = Vfs::singleton(path.clone(), src.clone());
+        let (items, errors) = parse_toplevel_items(&vfs_path, &src, &mut id_gen);
+
+        let items_dbg: Vec<String> = items
+            .iter()
+            .map(|i| normalise_debug(&format!("{:?}", i)))
+            .collect();
+
+        let (mut tokens, _lex_errors) = lex(&vfs_path, &src);
+        let mut comments: Vec<String> = vec![];
+        let mut token_positions: Vec<J> = vec![];
+        while let Some(tok) = tokens.pop() {
+            for (pos, c) in &tok.preceding_comments {
+                comments.push((*c).to_owned());
+                if want_positions {
+                    let mut j = pos_json(pos);
+                    j["k"] = J::String("comment".to_owned());
+                    token_positions.push(j);
+                }
+            }
+            if want_positions {
+                let mut j = pos_json(&tok.position);
+                j["k"] = J::String("token".to_owned());
+                token_positions.push(j);
+            }
+        }
+        for (pos, c) in &tokens.trailing_comments {
+            comments.push((*c).to_owned());
+            if want_positions {
+                let mut j = pos_json(pos);
+                j["k"] = J::String("comment".to_owned());
+                token_positions.push(j);
+            }
+        }
+
+        let mut positions = vec![];
+        if want_positions {
+            let mut v = PosCollector { out: vec![] };
+            for item in &items {
+                v.visit_toplevel_item(item);
+            }
+            positions = v.out;
+            positions.extend(token_positions);
+        }
+
+        json!({
+            "items": items_dbg,
+            "errors": parse_errors_json(&errors),
+            "comments": comments,
+            "positions": positions,
+        })
+    });
+    match res {
+        Ok(j) => j,
+        Err(p) => json!({"panic": p}),
+    }
+}
+
+fn op_frontend(req: &J) -> J {
+    let src = req["src"].as_str().unwrap_or("").to_owned();
+    let path = hook_path(req);
+    let do_check = req["check"].as_bool().unwrap_or(true);
+    let do_format = req["format"].as_bool().unwrap_or(true);
+
+    let mut out = json!({});
+
+    let parsed = catch(|| {
+        let mut id_gen = IdGenerator::default();
+        let (vfs, vfs_path) = Vfs::singleton(path.clone(), src.clone());
+        let (items, errors) = parse_toplevel_items(&vfs_path, &src, &mut id_gen);
+        (id_gen, vfs, vfs_path, items, errors)
+    });
+    let (id_gen, vfs, vfs_path, items, errors) = match parsed {
+        Ok(t) => t,
+        Err(p) => {
+            out["panic"] = p;
+            out["stage"] = J::String("parse".to_owned());
+            return out;
+        }
+    };
+    out["parse_errors"] = J::Array(parse_errors_json(&errors));
+    out["num_items"] = json!(items.len());
+
+    if do_check && errors.is_empty() {
+        let checked = catch(|| {
+            let mut env = Env::new(id_gen, vfs);
+            let ns = env.get_or_create_namespace(&path);
+            let (mut diagnostics, _) = load_toplevel_items(&items, &mut env, Rc::clone(&ns));
+            diagnostics.extend(check_toplevel_items_in_env(&vfs_path, &items, &env, ns));
+            diagnostics
+                .iter()
+                .map(|d| {
+                    json!({
+                        "message": d.message.as_string(),
+                        "severity": d.severity,
+                        "pos": pos_json(&d.position),
+                        "notes": d.notes.iter().map(|(_, p)| pos_json(p)).collect::<Vec<_>>(),
+                        "fixes": d.fixes.iter().map(|f| json!({
+                            "pos": pos_json(&f.position),
+                            "new_text": f.new_text,
+                        })).collect::<Vec<_>>(),
+                    })
+                })
+                .collect::<Vec<_>>()
+        });
+        match checked {
+            Ok(d) => out["diagnostics"] = J::Array(d),
+            Err(p) => {
+                out["panic"] = p;
+                out["stage"] = J::String("check".to_owned());
+                return out;
+            }
+        }
+    }
+
+    if do_format {
+        match catch(|| crate::format::format(&src, &path)) {
+            Ok(s) => out["formatted"] = J::String(s),
+            Err(p) => {
+                out["panic"] = p;
+                out["stage"] = J::String("format".to_owned());
+                return out;
+            }
+        }
+    }
+
+    out
+}
+
+fn op_format(req: &J) -> J {
+    let src = req["src"].as_str().unwrap_or("").to_owned();
+    let path = hook_path(req);
+    match catch(|| crate::format::format(&src, &path)) {
+        Ok(s) => json!({"formatted": s}),
+        Err(p) => json!({"panic": p}),
+    }
+}
+
+fn op_lex(req: &J) -> J {
+    let src = req["src"].as_str().unwrap_or("").to_owned();
+    let path = hook_path(req);
+    let res = catch(|| {
+        let (_vfs, vfs_path) = Vfs::singleton(path.clone(), src.clone());
+        let (mut tokens, errors) = lex(&vfs_path, &src);
+        let mut toks = vec![];
+        while let Some(tok) = tokens.pop() {
+            toks.push(json!({"text": tok.text, "pos": pos_json(&tok.position)}));
+        }
+        json!({"tokens": toks, "errors": parse_errors_json(&errors)})
+    });
+    match res {
+        Ok(j) => j,
+        Err(p) => json!({"panic": p}),
+    }
+}
+
+fn type_from_json(j: &J) -> Type {
+    let args = |key: &str| -> Vec<Type> {
+        j[key]
+            .as_array()
+            .map(|a| a.iter().map(type_from_json).collect())
+            .unwrap_or_default()
+    };
+    match j["k"].as_str().unwrap_or("") {
+        "Any" => Type::Any,
+        "Tuple" => Type::Tuple(args("a")),
+        "Fun" => Type::Fun {
+            name_sym: None,
+            type_params: vec![],
+            params: args("p"),
+            return_: Box::new(type_from_json(&j["r"])),
+        },
+        "Param" => Type::TypeParameter(TypeName {
+            text: j["n"].as_str().unwrap_or("T").to_owned(),
+        }),
+        _ => Type::UserDefined {
+            kind: if j["kind"].as_str() == Some("Enum") {
+                TypeDefKind::Enum
+            } else {
+                TypeDefKind::Struct
+            },
+            name: TypeName {
+                text: j["n"].as_str().unwrap_or("Int").to_owned(),
+            },
+            args: args("a"),
+        },
+    }
+}
+
+fn type_to_json(t: &Type) -> J {
+    match t {
+        Type::Any => json!({"k": "Any"}),
+        Type::Tuple(elems) => {
+            json!({"k": "Tuple", "a": elems.iter().map(type_to_json).collect::<Vec<_>>()})
+        }
+        Type::Fun {
+            params, return_, ..
+        } => json!({
+            "k": "Fun",
+            "p": params.iter().map(type_to_json).collect::<Vec<_>>(),
+            "r": type_to_json(return_),
+        }),
+        Type::UserDefined { kind, name, args } => json!({
+            "k": "User",
+            "kind": match kind { TypeDefKind::Enum => "Enum", TypeDefKind::Struct => "Struct" },
+            "n": name.text,
+            "a": args.iter().map(type_to_json).collect::<Vec<_>>(),
+        }),
+        Type::TypeParameter(name) => json!({"k": "Param", "n": name.text}),
+        Type::Error { .. } => json!({"k": "Error"}),
+    }
+}
+
+fn op_types(req: &J) -> J {
+    // "types": table of types; "subtype"/"unify": lists of index
+    // pairs into the table; "unify_all": lists of index lists.
+    let res = catch(|| {
+        let table: Vec<Type> = req["types"]
+            .as_array()
+            .map(|a| a.iter().map(type_from_json).collect())
+            .unwrap_or_default();
+        let idx = |j: &J| j.as_u64().unwrap_or(0) as usize;
+
+        let mut out = json!({});
+        if let Some(pairs) = req["subtype"].as_array() {
+            let r: Vec<bool> = pairs
+                .iter()
+                .map(|p| is_subtype(&table[idx(&p[0])], &table[idx(&p[1])]))
+                .collect();
+            out["subtype"] = json!(r);
+        }
+        if req["subtype_all_pairs"].as_bool() == Some(true) {
+            let mut rows = vec![];
+            for a in &table {
+                let row: String = table
+                    .iter()
+                    .map(|b| if is_subtype(a, b) { '1' } else { '0' })
+                    .collect();
+                rows.push(row);
+            }
+            out["subtype_matrix"] = json!(rows);
+        }
+        if let Some(pairs) = req["unify"].as_array() {
+            let r: Vec<J> = pairs
+                .iter()
+                .map(|p| {
+                    match crate::checks::type_checker::verif_unify(
+                        &table[idx(&p[0])],
+                        &table[idx(&p[1])],
+                    ) {
+                        Some(t) => type_to_json(&t),
+                        None => J::Null,
+                    }
+                })
+                .collect();
+            out["unify"] = json!(r);
+        }
+        if let Some(lists) = req["unify_all"].as_array() {
+            let r: Vec<J> = lists
+                .iter()
+                .map(|l| {
+                    let tys: Vec<Type> = l
+                        .as_array()
+                        .map(|a| a.iter().map(|i| table[idx(i)].clone()).collect())
+                        .unwrap_or_default();
+                    match crate::checks::type_checker::verif_unify_all(&tys) {
+                        Some(t) => type_to_json(&t),
+                        None => J::Null,
+                    }
+                })
+                .collect();
+            out["unify_all"] = json!(r);
+        }
+        out
+    });
+    match res {
+        Ok(j) => j,
+        Err(p) => json!({"panic": p}),
+    }
+}
+
+fn op_lsp_pos(req: &J) -> J {
+    let src = req["src"].as_str().unwrap_or("").to_owned();
+    let res = catch(|| {
+        let mut out = json!({});
+        if let Some(offsets) = req["offsets"].as_array() {
+            // For each offset: (line, character) as the server computes
+            // them for a position that starts at this offset.
+            let r: Vec<J> = offsets
+                .iter()
+                .map(|o| {
+                    let o = o.as_u64().unwrap_or(0) as usize;
+                    let (line, character) = crate::lsp::verif_offset_to_lsp_position(&src, o);
+                    json!([line, character])
+                })
+                .collect();
+            out["positions"] = json!(r);
+        }
+        if let Some(lcs) = req["line_chars"].as_array() {
+            let r: Vec<usize> = lcs
+                .iter()
+                .map(|lc| {
+                    crate::lsp::verif_line_char_to_offset(
+                        &src,
+                        lc[0].as_u64().unwrap_or(0) as usize,
+                        lc[1].as_u64().unwrap_or(0) as usize,
+                    )
+                })
+                .collect();
+            out["offsets"] = json!(r);
+        }
+        let (l, c) = crate::lsp::verif_whole_document_range_end(&src);
+        out["whole_end"] = json!([l, c]);
+        out
+    });
+    match res {
+        Ok(j) => j,
+        Err(p) => json!({"panic": p}),
+    }
+}
+
+pub(crate) fn run_hook_server() {
+    std::panic::set_hook(Box::new(|info| {
+        let msg = if let Some(s) = info.payload().downcast_ref::<&str>() {
+            (*s).to_owned()
+        } else if let Some(s) = info.payload().downcast_ref::<String>() {
+            s.clone()
+        } else {
+            "non-string panic payload".to_owned()
+        };
+        let loc = info
+            .location()
+            .map(|l| format!("{}:{}", l.file(), l.line()))
+            .unwrap_or_else(|| "?".to_owned());
+        LAST_PANIC.with(|p| *p.borrow_mut() = Some((msg, loc)));
+    }));
+
+    let stdin = std::io::stdin();
+    let stdout = std::io::stdout();
+    for line in stdin.lock().lines() {
+        let Ok(line) = line else { break };
+        if line.trim().is_empty() {
+            continue;
+        }
+        let reply = match serde_json::from_str::<J>(&line) {
+            Ok(req) => match req["op"].as_str().unwrap_or("") {
+                "frontend" => op_frontend(&req),
+                "ast" => op_ast(&req),
+                "format" => op_format(&req),
+                "lex" => op_lex(&req),
+                "types" => op_types(&req),
+                "lsp_pos" => op_lsp_pos(&req),
+                "ping" => json!({"pong": true}),
+                other => json!({"error": format!("unknown op {other}")}),
+            },
+            Err(e) => json!({"error": format!("bad request: {e}")}),
+        };
+        let mut out = stdout.lock();
+        let _ = writeln!(out, "{}", reply);
+        let _ = out.flush();
+    }
+}
